@@ -29,7 +29,7 @@ RULE = ('coverage-guided fuzzing (Atheris/libFuzzer, oracle inside the target) +
         'nOpCount<=222, |vfExec|<=len(script)). non-trivial = scriptSig parses completely and scriptPubKey has >=1 parsable '
         'operation; distinct by digest of the decoded case')
 ASSUMPTIONS = ['scope per statement: inIdx >= 0; flag sets respect CLEANSTACK => P2SH (caller precondition asserted by the library)',
-               'termination judged by libFuzzer -timeout and a per-check wall budget; a time-out is reported as inconclusive unless it '
+               'termination judged by CPU time (libFuzzer -timeout only nominates candidates); a time-out is reported as inconclusive unless it '
                'reproduces']
 SELFTEST_NOTE = 'empty input and seed corpus pass the target before a campaign starts'
 # the four flags the interpreter implements first (bits 0-3), then every other flag constant the library exports: the property
@@ -134,7 +134,7 @@ def check_case(case):
     # the flag set in the container types callers use (the functions' own default is a tuple)
     fl = [fl, frozenset(fl), tuple(fl), list(fl)][(case['variant'] + case['fb']) % 4]
     init = None
-    t0 = time.time()
+    t0 = time.thread_time()          # CPU time of this thread: the machine's load must not decide a verdict
     try:
         if case['mode'] == 3:
             init = [ssig_b[:3], spk_b[:2], b'z' * 600]
@@ -164,9 +164,9 @@ def check_case(case):
         outcome = 'ValidationError'
     except Exception as e:
         raise unexpected('verify' if case['mode'] != 3 else 'eval', e, 'ssig=%s spk=%s' % (ssig_b.hex()[:80], spk_b.hex()[:80]))
-    dt = time.time() - t0
+    dt = time.thread_time() - t0
     if dt > 20:
-        raise Violation('termination/slow', 'verification took %.1f s' % dt)
+        raise Violation('termination/slow', 'verification used %.1f s of CPU time' % dt)
     if tx.serialize() != before or libx.tx_model_of(tx) != fields:
         raise Violation('sideeffect/tx', 'verification modified the transaction it was given')
     if bytes(ssig) != ssig_b or bytes(spk) != spk_b:
@@ -394,14 +394,21 @@ def t_fuzz(ctx):
             case = decode(data)
             kind = os.path.basename(a).split('-')[0]
             if kind == 'timeout':
-                # termination is the property: reproduce twice under a 60 s budget, otherwise inconclusive
-                ok = 0
+                # libFuzzer's alarm counts wall-clock seconds, which on a loaded machine says nothing: the input is run again on its
+                # own, twice; it counts as non-terminating only if both runs burn more than 60 s of CPU time without finishing
+                # (otherwise: inconclusive, never a violation)
+                import resource
+                stuck = 0
                 for _ in range(2):
-                    r = subprocess.run([sys.executable, '-B', os.path.join(VERIF, 'vlib', 'fuzz', 'c07_target.py'), a], env=env,
-                                       capture_output=True, timeout=120)
-                    ok += r.returncode != 0
-                if ok == 2:
-                    ctx.violation(Violation('termination/timeout', 'verification does not terminate within 25 s (reproduced twice)'), case)
+                    c0 = resource.getrusage(resource.RUSAGE_CHILDREN)
+                    try:
+                        subprocess.run([sys.executable, '-B', os.path.join(VERIF, 'vlib', 'fuzz', 'c07_target.py'), a], env=env,
+                                       capture_output=True, timeout=900)
+                    except subprocess.TimeoutExpired:
+                        c1 = resource.getrusage(resource.RUSAGE_CHILDREN)
+                        stuck += (c1.ru_utime + c1.ru_stime) - (c0.ru_utime + c0.ru_stime) > 60
+                if stuck == 2:
+                    ctx.violation(Violation('termination/timeout', 'verification does not finish within 60 s of CPU time (reproduced twice)'), case)
                 else:
                     ctx.inconclusive += 1
             else:
